@@ -107,11 +107,33 @@ pub fn check(c: &Case, mode: Mode) -> Outcome {
     }
     let f1 = textwrap::fill(t, spec.options());
     if let Algo::Optimal(_) = spec.algo {
-        if f1
-            .split(spec.ending())
-            .any(|l| display_width(l) > spec.width)
-        {
-            return Outcome::Skip("optimal-fit and a line of the first result overflows");
+        // "no line of the first result overflows the width": overflow is
+        // judged both by the display width of the line and by the measure the
+        // algorithm itself uses (fragment widths plus inter-fragment spaces).
+        // The two differ when an escape sequence straddles a word boundary
+        // (a lone ESC before a space, an OSC payload containing a space under
+        // the ASCII separator): the words are measured one by one, the joined
+        // line as a whole. A line that overflows by either measure puts the
+        // case outside the stated domain.
+        let splitter = spec.split.splitter();
+        for l in f1.split(spec.ending()) {
+            if display_width(l) > spec.width {
+                return Outcome::Skip("optimal-fit and a line of the first result overflows");
+            }
+            let words = spec.separator().find_words(l);
+            let frs: Vec<_> = split_words(words, &splitter).collect();
+            let mut acc = 0usize;
+            for (i, w) in frs.iter().enumerate() {
+                acc += w.width;
+                if i + 1 < frs.len() {
+                    acc += w.whitespace.len();
+                }
+            }
+            if acc > spec.width {
+                return Outcome::Skip(
+                    "optimal-fit and a line of the first result overflows by the algorithm's own measure",
+                );
+            }
         }
     }
     let f2 = textwrap::fill(&f1, spec.options());
